@@ -95,6 +95,7 @@ void pmc_run(const char* config) {
     mv_init(); mvp::use_fast_stacks(true);
     mv_on_deadlock = on_deadlock;
     mv_time_deviations(strstr(extra, "tdev") != nullptr);
+    mv_tso(strstr(extra, "tso") != nullptr); mv_switch_points(0);     // built with -DPHOTON_VERIF for the TSC hook only
     // lifespan 100us; the timer thread itself is parked (cycle 10 s): expire() runs at every acquire/release and by op 'e'
     st.prog.on_vcpu_start = [&](int os) { if (os == 0) st.oc = new ObjectCache<int, Obj*>(100, 10ull * 1000 * 1000); };
     st.prog.on_vcpu_end = [&](int os) { if (os == 0) { delete st.oc; st.oc = nullptr; } };
